@@ -18,9 +18,10 @@ PREFIX = ['C06']
 INVS = ['InvSelfVisible', 'InvChainConnected', 'InvMonotone', 'InvNonInterfering', 'InvUnobstructed']
 
 
-def code_masks(fname, h, w, py, px):
+def code_masks(fname, h, w, py, px, params=None):
     """the implementation's visibility mask for every opacity pattern of an h x w view"""
-    f = visibility_fs.factory(fname)
+    kw = {} if params is None else {'absolute_counts': params['abs'], 'threshold': params['tn'] / params['td']}
+    f = visibility_fs.factory(fname, **kw)
     n = h * w
     out = []
     pos = Position(py, px)
@@ -87,10 +88,39 @@ def run_tables(ctx, views):
             if kind == 'code':
                 ctx.add_counts(evaluations=2 ** (h * w), nontrivial=nt, traces=1)
     ctx.add_part('all opacity patterns of small views', views=[list(a[1:]) for a in args])
+    threshold_tables(ctx)
     ctx.sample({'view': list(args[0][1:]), 'patterns': 2 ** (args[0][2] * args[0][3]),
                 'meaning': 'mask of the real visibility function for every opacity pattern, checked against SelfVisible, ChainConnected, Monotone, NonInterfering'})
     for a in args:
         os.remove(a[0])
+
+
+def threshold_tables(ctx):
+    """the thresholded variants of raytracing (absolute_counts / threshold parameters) against RaytracingThr:
+    conformance beyond the listed property (C06 speaks about the default function), so mismatches are drift"""
+    d = os.path.join(ctx.work, 'thr')
+    os.makedirs(d, exist_ok=True)
+    views = [(3, 3, 2, 1), (2, 3, 1, 0), (4, 3, 3, 1)] if ctx.quick else [(3, 3, 2, 1), (2, 3, 1, 0), (4, 3, 3, 1), (3, 4, 2, 2), (3, 5, 2, 2)]
+    plist = [{'abs': True, 'tn': 2, 'td': 1}, {'abs': True, 'tn': 3, 'td': 1}, {'abs': False, 'tn': 1, 'td': 2}, {'abs': False, 'tn': 1, 'td': 1}, {'abs': False, 'tn': 1, 'td': 4}]
+    cfg = write_cfg(os.path.join(ctx.work, 'Vis_thr.cfg'), constants={'Source': '"code"'}, invariants=['InvAgreesWithSpec', 'InvFanOK'])
+    jobs, labels = [], []
+    for (h, w, py, px) in views:
+        key, fan = obs.fan_for(h, w, py, px)
+        for params in plist:
+            path = os.path.join(d, f'thr_{h}x{w}_{py}_{px}_{params["abs"]}_{params["tn"]}_{params["td"]}.json')
+            with open(path, 'w') as f:
+                json.dump({'h': h, 'w': w, 'py': py, 'px': px, 'fname': 'raytracing', 'fan': fan, 'params': params,
+                           'masks': code_masks('raytracing', h, w, py, px, params)}, f, separators=(',', ':'))
+            jobs.append(dict(module='VisTable', cfg=cfg, env={'TRACE_FILE': path}, workers=1, timeout=3000, check=False, heap='4g'))
+            labels.append((h, w, py, px, params, path))
+    for (h, w, py, px, params, path), res in zip(labels, run_many(jobs, parallel=16)):
+        if res.violated:
+            ctx.drift(f'raytracing with parameters {params} on a {h}x{w} view from ({py},{px}) differs from RaytracingThr of the specification')
+        elif res.rc != 0:
+            raise RuntimeError(res.raw[-2000:])
+        ctx.add_tlc(res, f'VisTable[thresholds] {h}x{w} {params}')
+        os.remove(path)
+    ctx.add_part('thresholded raytracing variants', views=len(views), parameter_sets=len(plist))
 
 
 def hidden_or_outside_cells(st, area, ob):
